@@ -164,7 +164,7 @@ pub fn run(_tier: Tier, shard: Shard, rep: &mut Report) {
     rep.rule = "the C13 and C14 matrices (every hit location, action, checker setting, populate outcome) x umask {000, 022, 077}: \
         F_GETFL access mode and lseek(SEEK_CUR) of every returned handle (judge and checker read the files they are given to the \
         end), bytes read to the end, st_mode of every file visible under the key name in the write cache; by-path set/put additionally with sources made by \
-        File::create (mode 0666 & !umask) under umask 000/002/022/077; every writing cell again with the handle built with auto_sync(false). For every cell that promotes a read-only hit, fills a miss or replaces a value, each call of the operation additionally fails \
+        File::create (mode 0666 & !umask) under umask 000/002/022/077, also while the application keeps a second hard link to that file; every writing cell again with the handle built with auto_sync(false). For every cell that promotes a read-only hit, fills a miss or replaces a value, each call of the operation additionally fails \
         in turn (two errnos per call): a handle returned all the same must still be read-only, at offset 0 and whole. Plus, under concurrency \
         (ensure / get_or_update / get racing with a deleter, an evicting writer or a replacing writer on plain, sharded and stacked \
         front-ends, all schedules with <= 2 preemptions): every handle returned is read-only, at offset 0 and whole. Non-trivial = \
@@ -187,6 +187,19 @@ pub fn run(_tier: Tier, shard: Shard, rep: &mut Report) {
             c.umask = umask;
             record_with(&c, true, rep);
             rep.count("plain_file_source_cells", 1);
+            // ... and the application keeps a second hard link to that file
+            if umask != 0o002 {
+                crate::ops::SOURCE_EXTRA_LINK.with(|l| l.set(true));
+                let before = rep.violations.len();
+                record_with(&c, true, rep);
+                crate::ops::SOURCE_EXTRA_LINK.with(|l| l.set(false));
+                for v in rep.violations.iter_mut().skip(before) {
+                    if let Some(o) = v.case.as_object_mut() {
+                        o.insert("source_extra_link".into(), serde_json::json!(true));
+                    }
+                }
+                rep.count("hard_linked_source_cells", 1);
+            }
         }
     }
     for cell in &all {
@@ -295,5 +308,8 @@ pub fn replay(case: &Value, rep: &mut Report) {
     }
     let cell = case.get("cell").unwrap_or(case);
     let plain = cell.get("plain_source").and_then(|v| v.as_bool()).unwrap_or(false);
+    let linked = cell.get("source_extra_link").and_then(|v| v.as_bool()).unwrap_or(false);
+    crate::ops::SOURCE_EXTRA_LINK.with(|l| l.set(linked));
     record_with(&Cell::from_json(cell), plain, rep);
+    crate::ops::SOURCE_EXTRA_LINK.with(|l| l.set(false));
 }
